@@ -290,6 +290,10 @@ where
     ) -> (WriteOp<K, V>, Instant) {
         let ts = self.inner.current_time_from_expiration_clock();
         let weight = self.inner.weigh(&key, &value);
+        // A switch point between the clock reading (and the caller's weigher, which may take
+        // any time) and the map update.
+        #[cfg(mini_moka_verif)]
+        crate::verif::sp("insert.weighed");
         #[cfg(mini_moka_verif)]
         crate::verif::map_probe(&|| self.inner.cache.try_get_mut(&key).is_locked());
         let mut insert_op = None;
